@@ -265,9 +265,6 @@ impl Check for C09Check {
             Tier::Thorough => 60_000 + 301 * 40 + 1500 + 120,
         }
     }
-    fn watchdog_s(&self, _tier: Tier) -> u64 {
-        180
-    }
     fn generate(&self, _seed: u64, index: u64, tier: Tier) -> Value {
         let mode = if index % 2 == 1 { "relchk" } else { "release" };
         let i = index / 2;
